@@ -301,6 +301,23 @@ def check_grid(case):
         for v in sol_like:
             if abs(v - want_sol) > 1e-12 * scale:
                 fail("C09/grid/sol-boundary-value", {"got": v, "want": float(want_sol)})
+        # private-flux limits: the first face of a leg's innermost segment is the requested
+        # psi_pf_lower / psi_pf_upper (or psinorm_pf_*, which default to psinorm_pf)
+        def pf_want(which):
+            if o.get("psi_pf_" + which) is not None:
+                return float(o["psi_pf_" + which])
+            v = o.get("psinorm_pf_" + which)
+            if v is None:
+                v = o.get("psinorm_pf")
+            return None if v is None else float(norm_to_psi(v))
+
+        for rid, r in side["regions"].items():
+            if r["radialIndex"] != 0 or "divertor" not in r["name"]:
+                continue
+            which = "upper" if "upper" in r["name"] else "lower"
+            want_pf = pf_want(which)
+            if want_pf is not None and abs(float(r["psi_vals"][0]) - want_pf) > 1e-12 * scale:
+                fail("C09/grid/pf-boundary-value", {"region": r["name"], "got": float(r["psi_vals"][0]), "want": want_pf, "which": which})
         # every separatrix value is a face of the regions touching it
         connected = side.get("double_null_type") == "connected"
         spread = abs(side["psi_sep"][0] - side["psi_sep"][-1]) if connected else 0.0
